@@ -489,8 +489,17 @@ Print Assumptions C19_codecs_all_bounded.
 
 Theorem C19_third_party_limits :
   Model.YAMUX_DEFAULT_CREDIT = DecodeSites.YAMUX_DEFAULT_CREDIT /\ DecodeSites.SNOW_MAXMSGLEN = 65535 /\
-  WS_MAX_FRAME = 16777216 /\ WS_MAX_MESSAGE = 67108864.
+  WS_MAX_FRAME = 16777216 /\ WS_MAX_MESSAGE = 67108864 /\
+  Protobuf.RECURSION_LIMIT = DecodeSites.PROST_RECURSION_LIMIT.
 Proof. repeat split; reflexivity. Qed.
+
+(* the multiaddr protocol table of the model lists exactly the protocol codes of the vendored crate *)
+Theorem C19_maddr_codes_match :
+  forallb (fun c => Sites.mem c DecodeSites.maddr_codes) (map fst proto_table) &&
+  forallb (fun c => Sites.mem c (map fst proto_table)) DecodeSites.maddr_codes &&
+  Nat.eqb (length proto_table) (length DecodeSites.maddr_codes) = true.
+Proof. exact Sites.maddr_codes_match. Qed.
+Print Assumptions C19_maddr_codes_match.
 Print Assumptions C19_third_party_limits.
 
 (* ---------------------------------------------------------------- yamux (third party): known finding class 1 *)
@@ -579,5 +588,5 @@ Proof. vm_compute. reflexivity. Qed.
 (* the inventory: how many sites of each class *)
 Example C19_ex_inventory :
   (Sites.count Sites.M, Sites.count Sites.D, Sites.count Sites.H, Sites.count Sites.X, Sites.count Sites.NW)
-  = (124, 2, 16, 17, 77)%nat.
+  = (124, 2, 17, 16, 77)%nat.
 Proof. vm_compute. reflexivity. Qed.
